@@ -40,6 +40,11 @@ func genC06(level int) []*CacheScen {
 					add(&CacheScen{Rel: RelSS, NKeys: 2, Init: []int{ini, IAbsent}, Table: TPlain, Threads: [][]CIn{{con(a, 0)}, {con(b, 0), con(cDelete, 0)}}})
 				}
 			}
+			// two cleanup passes (and a cleanup pass against single-key removers) on a cache that has cleaned up before
+			for _, rel := range []KeyRel{RelSS, RelDD} {
+				add(&CacheScen{Rel: rel, NKeys: 2, Init: []int{ini, IExpired}, Table: TPlain, Warm: true, Threads: [][]CIn{{cDelExp}, {cDelExp}}})
+				add(&CacheScen{Rel: rel, NKeys: 2, Init: []int{ini, IExpired}, Table: TPlain, Warm: true, Threads: [][]CIn{{cDelExp}, {con(cDelete, 0), cDelExp}}})
+			}
 			// two expired keys in one bucket, two cleanup passes
 			add(&CacheScen{Rel: RelSS, NKeys: 2, Init: []int{ini, IExpired}, Table: TPlain, Threads: [][]CIn{{cDelExp}, {cDelExp}}})
 			if level >= 1 {
